@@ -250,6 +250,18 @@ The schedule is the list of tokens it has not handed out yet (`Next` pops the he
 interleaving of the instances' schedule accesses is a list of steps (the instance count is unbounded: any `Nat` is an instance).
 -/
 
+/-- which schedule the Waiter of an instance runs over -/
+inductive SchedKind
+  /-- `rps-per-instance`: every instance has its own copy of the profile (a pool of `n` such instances is `n` independent
+  single-instance runs: `runLoop` / `simHist` each) -/
+  | own
+  /-- one schedule for the whole pool: the instances compete for its tokens (`pstep` / `prun`) -/
+  | shared
+deriving Repr, DecidableEq
+
+/-- `(*instancePool).buildNewInstanceSchedule` -/
+def scheduleKind (perInstance : Bool) : SchedKind := if perInstance then .own else .shared
+
 inductive Phase
   /-- at the loop head (about to call `IsFinished`) -/
   | head
@@ -315,5 +327,83 @@ def prun (st : PState) (steps : List PStep) : PState := steps.foldl pstep st
 /-- the actions of instance `i` after the given steps -/
 def poolEvents (v : Variant) (d : Bool) (toks : List Int) (steps : List PStep) (i : Nat) : List Ev :=
   (runLoop v d Waiter.init ((prun (PState.init toks) steps).hist i)).1
+
+/-! ### a closed world: time advances, timers fire, `Shoot` returns (progress of the loop)
+
+Above, the environment of every pass (`Iter`) is an arbitrary input and the theorems carry the clock hypotheses.  Here the world
+is generated instead: an instance draws the tokens `toks` of a schedule one after the other, the clock advances by the (natural
+number, hence non-negative) delays of `Delays`, an armed timer fires `dLag` after its time, `Shoot` returns after `dur`.  Nothing is
+cancelled and ammo is available.  `simHist` is the history of passes this world produces; it ends with the pass in which
+`IsFinished` sees the empty schedule.  (Round 2.) -/
+
+/-- the delays the world adds in one pass -/
+structure Delays where
+  /-- loop overhead: end of the previous action → `Next` has returned the token -/
+  dPick : Nat := 0
+  /-- `Next` returned → `time.Now()` is read -/
+  dNow : Nat := 0
+  /-- the reading → the timer is armed -/
+  dArm : Nat := 0
+  /-- lateness of the timer (timer path) / of the return of `Wait` (other paths) -/
+  dLag : Nat := 0
+  /-- response time of `Shoot` -/
+  dur : Nat := 0
+deriving Repr, DecidableEq, Inhabited
+
+/-- the pass the world produces for token `tok` when the previous action ended at instant `t` -/
+def simIter (t tok : Int) (p : Delays) : Iter :=
+  { finished := false, ammoOk := true, ctxDoneSlow := false, dur := p.dur,
+    env := { ctxDone := false, tok := some tok, pick := t + p.dPick, now := t + p.dPick + p.dNow,
+             arm := t + p.dPick + p.dNow + p.dArm, timerWins := true,
+             ret := (if tok ≤ t + p.dPick + p.dNow then t + p.dPick + p.dNow + p.dArm
+                     else t + p.dPick + p.dNow + p.dArm + (tok - (t + p.dPick + p.dNow))) + p.dLag } }
+
+/-- the pass in which `IsFinished` sees the empty schedule -/
+def simLast (t : Int) : Iter := { finished := true, env := { pick := t, now := t, arm := t, ret := t } }
+
+/-- instant at which the action of a pass is over, given the waiter state after its `Wait` -/
+def simNext (d : Bool) (w' : Waiter) (it : Iter) : Int :=
+  if fires d (isSlowDown w' false) then it.env.ret + it.dur else it.env.ret
+
+/-- the history of passes of one instance in the closed world, started at instant `t` with waiter state `w`;
+`[]` after the last supplied `Delays` when tokens are left (the world's description ran out) -/
+def simHist (v : Variant) (d : Bool) : Waiter → Int → List Int → List Delays → List Iter
+  | _, t, [], _ => [simLast t]
+  | _, _, _ :: _, [] => []
+  | w, t, tok :: toks, p :: ps =>
+    (simIter t tok p) ::
+      simHist v d (waitV v w (simIter t tok p).env).w (simNext d (waitV v w (simIter t tok p).env).w (simIter t tok p)) toks ps
+
+/-! ### `Time.Sub` saturates (round 2)
+
+Go's `Time.Sub` returns `maxDuration` / `minDuration` (±2^63 ns, about 292 years) instead of overflowing. `waitV` reads it as exact
+subtraction; `waitVWith satSub` is `Wait` with the saturating one. `Props`: they agree whenever the token times and clock readings
+of the run lie within 292 years of each other and after year 1 (the zero `time.Time` of the lazily initialised `lastNow`). -/
+
+def maxDuration : Int := 9223372036854775807
+def minDuration : Int := -9223372036854775808
+
+/-- `a.Sub(b)` as Go computes it -/
+def satSub (a b : Int) : Int :=
+  if a - b > maxDuration then maxDuration else if a - b < minDuration then minDuration else a - b
+
+/-- `waitV` with the subtraction as a parameter (the same statements) -/
+def waitVWith (sub : Int → Int → Int) (v : Variant) (w : Waiter) (e : Env) : Res :=
+  if e.ctxDone then ⟨{ w with overdue := 0 }, false, .ctxDone⟩ else
+  match e.tok with
+  | none => ⟨{ w with overdue := 0 }, false, .finished⟩
+  | some next =>
+    let waitFor := sub next w.lastNow
+    if waitFor ≤ 0 then
+      match v with
+      | .cached => ⟨{ w with overdue := 0 - waitFor }, true, .cachedNow⟩
+      | .fresh => ⟨{ lastNow := e.now, overdue := sub e.now next }, true, .cachedNow⟩
+    else
+      let w : Waiter := { w with lastNow := e.now }
+      let waitFor := sub next w.lastNow
+      if waitFor ≤ 0 then ⟨{ w with overdue := 0 - waitFor }, true, .freshNow⟩
+      else
+        let w : Waiter := { w with overdue := 0 }
+        if e.timerWins then ⟨w, true, .timer⟩ else ⟨w, false, .timerCancel⟩
 
 end Pandora.Model.C04
